@@ -25,8 +25,35 @@ def ty_of(name):
     return TYPES[name] if name in TYPES else cls_of(int(name[1:]))
 
 
+SPEC_CONTAINERS = []     # every list / dict / set object built for a container node of the spec IR since the last reset
+
+
 def build(ir, r, ctor=True):
     """IR -> real glom spec objects; r is a pyval.Realiser for embedded values"""
+    out = _build(ir, r, ctor)
+    if ir[0] in ('List', 'Dict', 'Set') and type(out) in (list, dict, set):
+        SPEC_CONTAINERS.append(out)
+    return out
+
+
+def spec_leaks(res):
+    """how many containers reachable from a result ARE (by identity) containers of the spec: evaluation builds new ones"""
+    seen, stack, n = set(), [res], 0
+    ids = {id(c) for c in SPEC_CONTAINERS}
+    while stack:
+        x = stack.pop()
+        if id(x) in seen or not isinstance(x, (list, dict, set, tuple)):
+            continue
+        seen.add(id(x))
+        if id(x) in ids:
+            n += 1
+        stack.extend(x.values() if isinstance(x, dict) else x)
+        if isinstance(x, dict):
+            stack.extend(x.keys())
+    return n
+
+
+def _build(ir, r, ctor=True):
     import glom
     from glom import matching
     k = ir[0]
@@ -278,6 +305,7 @@ def run_glom(case):
     import glom
     r = pyval.Realiser()
     target = r.build(case['target'])
+    del SPEC_CONTAINERS[:]
     spec = build(case['spec'], r)
     kw = {}
     if case.get('scope'):
@@ -287,6 +315,9 @@ def run_glom(case):
     try:
         res = glom.glom(target, spec, **kw)
         out = {'ok': r.encode(res)}
+        leaks = spec_leaks(res)
+        if leaks:
+            out['spec_leaks'] = leaks
     except Exception as e:
         out = pyval.exc_outcome(e)
     out['log'] = [[n, r.encode(x)] for n, x in pyval.CALL_LOG]
